@@ -33,6 +33,15 @@ class AnchorNotFound(SymError):
     pass
 
 
+class _FragmentVars(dict):
+    def __init__(self, d, module):
+        dict.__init__(self, d)
+        self._module = module
+
+    def __missing__(self, key):
+        raise AnchorNotFound(f"anchor-not-found: fragment of {self._module} no longer defines the local '{key}' the contract reads back")
+
+
 def find_fragment(sources, module, qualname, patterns):
     import ast
     got = sources.load(module)
@@ -260,10 +269,18 @@ class SymCtx:
         return find_fragment(self.ex.sources, module, qualname, patterns)
 
     def run_fragment(self, module, stmts, env):
+        """executes the anchored statements with the locals the contract provides.  A statement contract depends on the NAMES of
+        the function's locals: if the fragment reads a name the contract does not provide, or no longer defines one the contract
+        reads back, the code was restructured - that is `anchor-not-found` (undecided), never a violation."""
         m = self.module(module)
         e = I.Env(m.env, dict(env))
-        self.it.exec_block(stmts, e, m, None)
-        return e.vars
+        try:
+            self.it.exec_block(stmts, e, m, None)
+        except I.IRaise as r:
+            if isinstance(r.exc, (NameError, UnboundLocalError)):
+                raise AnchorNotFound(f"anchor-not-found: fragment of {module} reads a local the contract does not provide ({r.exc})")
+            raise
+        return _FragmentVars(e.vars, module)
 
     def alloc(self, cls, **attrs):
         """an instance of a repo class without running its constructor (frame conditions are set by the harness)"""
@@ -512,8 +529,11 @@ class NativeCtx:
         g = dict(vars(importlib.import_module(module)))
         g.update(env)
         code = compile(ast.fix_missing_locations(ast.Module(body=list(stmts), type_ignores=[])), f"<fragment of {module}>", "exec")
-        exec(code, g)
-        return g
+        try:
+            exec(code, g)
+        except NameError as ex:
+            raise NativeSkip(f"fragment reads a local the contract does not provide: {ex}")
+        return _FragmentVars(g, module)
 
     def alloc(self, cls, **attrs):
         o = object.__new__(cls)
